@@ -269,7 +269,7 @@ def unjson(s):
 SELFTEST_FLIP = {
     "ContentPackTrace": ("Get", lambda e: e.update(cid=e["cid"] + 1) if e["res"] == "match" else None),
     "EntryStoreTrace": ("Index", lambda e: e.update(count=e["count"] + 1)),
-    "EntryOrderTrace": [("Find", lambda e: e.update(res=e["res"] + 1) if e["res"] >= 0 else None),
+    "EntryOrderTrace": [("Find", lambda e: e.update(res=-1) if e["res"] >= 0 else None),      # a key that was written reported absent
                         ("Handles", lambda e: e.update(pos=[e["pos"][1], e["pos"][0]] + e["pos"][2:], inv=[e["inv"][1], e["inv"][0]] + e["inv"][2:])
                          if len(e["pos"]) >= 2 and e["pos"][0] in (0, 1) and e["pos"][1] in (0, 1) else None)],
     "ClusterPipelineTrace": ("Seg", lambda e: e.update(tail=e["tail"] + 1)),
